@@ -125,7 +125,7 @@ def stepEvent (r : Run) (ws : List String) : EvOut :=
                            adrAckCnt := cnt, nwkKey := 1, appKey := 2 }
       .out "ok" { r with m := { r.m with st := .joined s } }
     | _, _, _, _, _, _, _ => .bad
-  | ["otaa"] =>
+  | "otaa" :: _ =>
     match macJoinOtaa rngNext r.m r.rng with
     | .ok (o, m, g) => .out s!"join {showTx o.tx} nonce={o.devNonce} jr=ok" { r with m := m, rng := g, win := some (o.tx.rx1.maxPayload, o.tx.rx2.maxPayload) }
     | .error f => .fault (showFault f)
